@@ -330,7 +330,7 @@ impl<S: Read> Master<S> {
     ) -> Result<()> {
         let mut in_file_index: u64 = 0;
         loop {
-            let started = reader.where_am_i();
+            let started = reader.where_is_unused_input();
             match reader.next_json_value() {
                 Ok(Some(val)) => {
                     if self.cli.only_objects_and_arrays {
@@ -341,7 +341,7 @@ impl<S: Read> Master<S> {
                             }
                         }
                     }
-                    let ended = reader.where_am_i();
+                    let ended = reader.where_is_unused_input();
                     let context = Context::new_with_input(
                         val,
                         started,
